@@ -68,7 +68,7 @@ static zckCtx *mk_writer(IN_w *in) {
     return zck;
 }
 
-/* ---- zck_write: conservation (g_next), termination (decreases on both loops), C16 bounds -------- */
+/* ---- zck_write: conservation (g_next_off), termination (decreases on both loops), C16 bounds -------- */
 void h_zck_write(void) {
     IN_w in = nondet_IN_w();
     zckCtx *zck = mk_writer(&in);
@@ -80,12 +80,12 @@ void h_zck_write(void) {
 #endif
     char *src = malloc(in.n);
     V_ASSUME(src != NULL);
-    g_next = src; g_track = 1; g_from_write = 1; g_bz_last = NULL; g_same = 0;
+    g_src_base = src; g_next_off = 0; g_track = 1; g_from_write = 1; g_bz_have = 0; g_same = 0;
     size_t dc0 = zck->comp.dc_data_size; int started0 = zck->comp.started, manual = zck->manual_chunk;
     size_t cnt0 = zck->index.count;
     ssize_t r = zck_write(zck, src, in.n);
     V_ASSERT(r == -1 || (size_t)r == in.n, "C01,C12.zck_write.all_or_error");
-    V_ASSERT(r < 0 || g_next == src + in.n, "C01.zck_write.every_source_byte_handed_on_exactly_once_in_order");
+    V_ASSERT(r < 0 || g_next_off == in.n, "C01.zck_write.every_source_byte_handed_on_exactly_once_in_order");
 #ifdef VERIF_ZW_MANUAL
     V_COVER(r > 0 && zck->index.count > cnt0 + 1 && started0);          /* manual: forced two chunks at the maximum size */
     V_COVER(r > 0 && !started0);                                        /* initialised on first write */
@@ -104,7 +104,7 @@ void h_comp_init_w(void) {
     IN_w in = nondet_IN_w();
     zckCtx *zck = mk_writer(&in);
     V_ASSUME(zck->error_state >= 0 && zck->error_state <= 2);
-    g_track = 0; g_next = NULL;
+    g_track = 0; g_src_base = NULL; g_next_off = 0;
     int min0 = zck->chunk_min_size, max0 = zck->chunk_max_size, tfd = zck->temp_fd, nw = zck->no_write;
     size_t cnt0 = zck->index.count;
     bool r = comp_init(zck);
